@@ -9,7 +9,11 @@ LEVEL_NOTE = "Closed forms exclude further master occurrences of one name, choic
 TECHNIQUE = 'Lean 4 shape theorems + closed form of fetch (incl. .multiple scopes) + differential correspondence + tree-walk oracle'
 RULE = ("masters (depth <= 3, every built-in type, .multiple/.optional combinations incl. multiples nested in multiple scopes, "
         "disabled objects, expert levels, non-canonical defaults, further occurrences) x 0-3 sources (matching, partial, unknown "
-        "names, repeated, disabled, dotted or nested); non-trivial = at least one source sets a parameter")
+        "names, repeated, disabled, dotted or nested); non-trivial = at least one source sets a parameter. Life-cycle stream: "
+        "the same master OBJECT is fetched, extended in place by scope.adopt_scope(plug-in) (new parameters / sub-scopes inside "
+        "any active scope, re-declared parameters; 1-2 rounds) and fetched again (fresh sources and/or the previous result handed "
+        "back); every fetch is judged against the structure the master declares at that moment and compared with the model's "
+        "answer on the text of the extended master")
 ASSUMPTIONS = ["masters have unique sibling names apart from further occurrences of .multiple objects"]
 
 
@@ -99,6 +103,140 @@ def strip_disabled(o):
     return o.customized_copy(objects=objs)
 
 
+def structure(o):
+    """content of a scope object without positions and ids"""
+    out = []
+    for c in o.objects:
+        head = ["d" if c.is_definition else "s", c.name, bool(c.is_disabled), [attr_j(getattr(c, a)) for a in c.attribute_names]]
+        head.append([[w.value, w.quote_token] for w in c.words] if c.is_definition else structure(c))
+        out.append(head)
+    return out
+
+
+def play(case, upto=None):
+    """run a master life-cycle case on the implementation: parse the master, then fetch / extend it in place step by
+    step; returns (master object, result of the last fetch step or the exception it raised)"""
+    m = freephil.parse(input_string=case["master"])
+    w = None
+    for st in case["steps"][:upto]:
+        if "adopt_scope" in st:
+            m.adopt_scope(freephil.parse(input_string=st["adopt_scope"]))
+        else:
+            ss = [freephil.parse(input_string=s) for s in st["fetch"]]
+            if st.get("first_source_is_the_previous_result_object") and w is not None and not isinstance(w, BaseException):
+                ss[0] = w       # the application hands its working parameters back as they are, not re-parsed
+            try:
+                w = m.fetch(sources=ss)
+            except BaseException as e:
+                if isinstance(e, (KeyboardInterrupt, MemoryError)):
+                    raise
+                w = e
+    return m, w
+
+
+def life_cycles(ctx, n):
+    """Masters that are extended IN PLACE between fetches (fetch, master.adopt_scope(plug-in), fetch again on the same
+    master object; one or two rounds).  The statement quantifies over every well-formed master, however it was built, and
+    over every fetch against it: after each step the result must have the structure the master declares at that moment.
+    The model is history-free, so each fetch is also compared with the model's answer on the TEXT of the extended master."""
+    import mgen
+    rng = ctx.rng
+    cases, reqs, impls = [], [], []
+    for i in range(n):
+        if ctx.time_left() < 30:
+            ctx.notes.append("life-cycle stream stopped early on time budget")
+            break
+        g = mgen.MasterGen(rng, depth=rng.choice([1, 1, 2, 2, 3]), nested_multiples=(i % 3 == 2), deprecated=True, reopen=False)
+        tree = g.tree()
+        mt = mgen.render_master(tree)
+        mt_now = mt
+        m = freephil.parse(input_string=mt)
+        steps = []
+        prev = None         # text of the previous fetch result (the application's working parameters)
+        prev_obj = None
+        rounds = rng.choice([1, 1, 2])
+        for rnd in range(rounds + 1):
+            if rnd > 0:
+                tree, ext, tags = g.extension(tree)
+                if not ext:
+                    ctx.count("life_no_extension_drawn")
+                    break
+                m.adopt_scope(freephil.parse(input_string=ext))
+                steps.append({"adopt_scope": ext})
+                mt_now = mgen.render_master(tree)
+                if structure(m) != structure(freephil.parse(input_string=mt_now)):
+                    # the extended master is not the master the generator meant to build (not C04's business): no verdict
+                    ctx.count("life_extension_not_as_written")
+                    break
+                for t in set(tags):
+                    ctx.count("life_ext_" + t)
+            srcs = [mgen.SourceGen(rng).text(tree) for _ in range(rng.choice([0, 1, 1, 2]))]
+            with_prev = prev is not None and rng.random() < 0.6
+            if with_prev:
+                srcs = [prev] + srcs
+            steps.append({"fetch": srcs})
+            case = {"master": mt, "steps": [dict(s_) for s_ in steps], "master_text_now": mt_now}
+            ss = [freephil.parse(input_string=s_) for s_ in srcs]
+            ctx.case((mt, repr(steps)), nontrivial=rnd > 0)
+            ctx.count("life_fetch_round_%d" % rnd)
+            ia = _fetch.fetch_impl(m, ss)
+            ctx.count("life_outcome_" + (ia[0] if ia[0] == "ok" else ia[1] if ia[1] == "sorry" else "%s_%s" % (ia[1], ia[2])))
+            f = None
+            if ia[0] == "ok":
+                w = m.fetch(sources=ss)
+                f = shape(m, w)
+                if f is None and with_prev and prev_obj is not None:
+                    try:
+                        f = shape(m, m.fetch(sources=[prev_obj] + ss[1:]))
+                    except (RuntimeError, freephil.Sorry):
+                        pass        # a refusal (e.g. an old value that the re-declared parameter does not accept)
+                    except BaseException as e:
+                        if isinstance(e, (KeyboardInterrupt, MemoryError)):
+                            raise
+                        f = "fetch raised %s: %s" % (type(e).__name__, e)
+                    if f:
+                        case = dict(case)
+                        case["steps"] = case["steps"][:-1] + [{"fetch": srcs, "first_source_is_the_previous_result_object": True}]
+                try:
+                    prev, prev_obj = w.as_str(), w
+                    freephil.parse(input_string=prev)
+                except BaseException:
+                    prev = prev_obj = None
+            else:
+                prev = prev_obj = None
+                if ia[1] == "stray":
+                    f = "fetch raised %s: %s" % (ia[2], ia[3])
+            cases.append((case, f))
+            reqs.append(_fetch.fetch_req(mt_now, srcs))
+            impls.append(ia)
+            if i % 100 == 0 and rnd > 0:
+                ctx.sample(case)
+    answers = [None] * len(reqs)
+    if reqs and ctx.mode != "impl-only":
+        from common import run_model, same_outcome
+
+        def cmp(a, i, extended):
+            if a and i and a[0] == "ok" and i[0] == "ok":
+                return same_outcome(["ok", skeleton(a[1][0])], ["ok", skeleton(i[1][0])])
+            if extended and a and i and a[0] == i[0] == "err" and a[1] == i[1] == "runtime":
+                # objects adopted from a plug-in keep the plug-in's line numbers, the model reads the extended master as
+                # one text: positions inside the master are not comparable (refusals citing a source line are: same texts)
+                return a[2] == i[2]
+            return same_outcome(a, i)
+        answers = run_model(reqs)
+        for (case, _f), a, i in zip(cases, answers, impls):
+            ok = cmp(a, i, any("adopt_scope" in st for st in case["steps"]))
+            ctx.traces += 1
+            if ok is None:
+                ctx.unsupported += 1
+            elif not ok:
+                ctx.disagree("fetch-after-in-place-extension", case, a, i)
+    for (case, f), a, i in zip(cases, answers, impls):
+        if f:
+            mv = None if (a is None or a[0] in ("unsupported", "parse-failed")) else (a[:3] == i[:3])
+            ctx.fail(case, f, finding=None, model_violates=mv)
+
+
 def run(ctx):
     rng = ctx.rng
     n = ctx.scale(2000, 40000, 8000)
@@ -152,6 +290,53 @@ def run(ctx):
         if f:
             mv = None if (a is None or a[0] in ("unsupported", "parse-failed")) else (a[:3] == i[:3])
             ctx.fail(case, f, finding=cls, model_violates=mv)
+    life_cycles(ctx, ctx.scale(500, 8000, 600))
+
+
+def _life_fails(case):
+    try:
+        m, w = play(case)
+    except BaseException:
+        return False
+    if isinstance(w, BaseException):
+        return not isinstance(w, (RuntimeError, freephil.Sorry))
+    return w is not None and shape(m, w) is not None
+
+
+def shrink(f):
+    """life-cycle cases only: drop whole sources and later rounds while the last fetch still fails"""
+    case = f["case"]
+    if "steps" not in case or not _life_fails(case):
+        return None
+    import copy
+    best = copy.deepcopy(case)
+    changed = True
+    while changed:
+        changed = False
+        for si, st in enumerate(best["steps"]):
+            if "fetch" not in st:
+                continue
+            for k in range(len(st["fetch"])):
+                if k == 0 and st.get("first_source_is_the_previous_result_object"):
+                    continue
+                trial = copy.deepcopy(best)
+                del trial["steps"][si]["fetch"][k]
+                if _life_fails(trial):
+                    best, changed = trial, True
+                    break
+            if changed:
+                break
+    # the shortest history that still fails (an earlier fetch may have had no verdict only because a source was refused)
+    for k in range(1, len(best["steps"])):
+        if "fetch" in best["steps"][k - 1]:
+            trial = dict(best, steps=best["steps"][:k])
+            if _life_fails(trial):
+                best = trial
+                break
+    m, w = play(best)
+    what = ("fetch raised %s: %s" % (type(w).__name__, w)) if isinstance(w, BaseException) else shape(m, w)
+    best.pop("master_text_now", None)
+    return dict(f, case=best, what=what, original_what=f["what"])
 
 
 def finding_still_fails(f):
@@ -167,6 +352,14 @@ def finding_still_fails(f):
 
 def replay(payload):
     c = payload["failure"]["case"]
+    if "steps" in c:
+        m, w = play(c)
+        if isinstance(w, BaseException):
+            print(type(w).__name__, w)
+            return type(w) is RuntimeError
+        r = shape(m, w)
+        print(r)
+        return r is None
     m = freephil.parse(input_string=c["master"])
     ss = [freephil.parse(input_string=s) for s in c["sources"]]
     try:
